@@ -270,6 +270,10 @@ impl<K, V> DashMap<K, V> {
                 r matches Some(g) ==> *g.k == *k && *g.v == self@[*k],
     { unimplemented!() }
     #[verifier::external_body]
+    pub fn contains_key(&self, k: &K) -> (r: bool) ensures r == self@.contains_key(*k) { unimplemented!() }
+    #[verifier::external_body]
+    pub fn is_empty(&self) -> (r: bool) ensures r == (self@.dom().len() == 0) { unimplemented!() }
+    #[verifier::external_body]
     pub fn entry<'a>(&'a mut self, k: K) -> (r: Entry<'a, K, V>)
         ensures r.key == k, mut_ref_current(r.map)@ == old(self)@, mut_ref_future(r.map)@ == final(self)@,
     { unimplemented!() }
